@@ -50,6 +50,16 @@ def scenarios(stmts, tier, seed):
             else:
                 ch["corrupt"] = [i % sh["width"], 1 + (i % max(1, sh["n"] - sh["exempt"] - 1))]
             scs.append(ch)
+    # the same over the quadratic and the cubic extension of the harness field (Trace_VerifierX.tla): statements of at most 16 steps
+    small = [sc for sc in scs if sc["shape"]["n"] <= 16 and sc["opts"]["q"] <= 24]
+    nx = 160 if tier == "quick" else 1500
+    step = max(1, len(small) // nx)
+    base = max([sc["id"] for sc in scs] + [0]) + 1
+    for j, sc in enumerate(small[::step][:nx]):
+        x = json.loads(json.dumps(sc))
+        x["ext"] = 2 + j % 2
+        x["id"] = base + j
+        scs.append(x)
     return scs
 
 
@@ -57,16 +67,17 @@ def run(tier, seed, stmts, wd, name="vm"):
     """returns dict(scs, lines=[(id, model stage, real verdict)], rejected=[(id, stage, verdict)], states, transitions, shards)"""
     exe = vlib.build_harness("rel")
     scs = scenarios(stmts, tier, seed)
-    nsh = 14
     jobs, skipped = [], []
-    for k in range(nsh):
-        part = scs[k::nsh]
-        if not part:
-            continue
-        sp = os.path.join(wd, "%s_scs_%d.ndjson" % (name, k))
-        vlib.write_ndjson(sp, part)
-        tp = os.path.join(wd, "%s_trace_%d.ndjson" % (name, k))
-        jobs.append((sp, tp))
+    for ext, nsh in ((1, 10), (2, 3), (3, 3)):
+        sub = [sc for sc in scs if sc["ext"] == ext]
+        for k in range(nsh):
+            part = sub[k::nsh]
+            if not part:
+                continue
+            sp = os.path.join(wd, "%s_scs_%d_%d.ndjson" % (name, ext, k))
+            vlib.write_ndjson(sp, part)
+            tp = os.path.join(wd, "%s_trace_%d_%d.ndjson" % (name, ext, k))
+            jobs.append((sp, tp, ext))
 
     def harness(j):
         rc, out, err = vlib.run_harness(exe, ["vmodel", "--scenarios", j[0], "--out", j[1]], timeout=1800)
@@ -74,14 +85,16 @@ def run(tier, seed, stmts, wd, name="vm"):
             raise vlib.ToolError("vmodel harness rc=%s: %s" % (rc, err[-400:]))
         return json.loads(out)["skipped"]
 
-    for sk in vlib.parallel(harness, jobs, max_workers=nsh):
+    for sk in vlib.parallel(harness, jobs, max_workers=16):
         skipped += sk
 
     def validate(j):
+        if j[2] > 1:
+            return j, vlib.tlc_validate("Trace_VerifierX", "Trace_VerifierX_%d" % j[2], j[1], tag="Trace_VerifierX_" + os.path.basename(j[1]), timeout=3300, xmx="3g")
         return j, vlib.tlc_validate("Trace_Verifier", "Trace_Verifier", j[1], tag="Trace_Verifier_" + os.path.basename(j[1]), timeout=3300, xmx="3g")
 
     lines, rejected, states, trans, accepted = [], [], 0, 0, 0
-    for j, rt in vlib.parallel(validate, [j for j in jobs if os.path.getsize(j[1]) > 0], max_workers=14):
+    for j, rt in vlib.parallel(validate, [j for j in jobs if os.path.getsize(j[1]) > 0], max_workers=16):
         states += rt.distinct
         trans += rt.generated
         vm = [(int(a), b, c) for a, b, c in re.findall(r'<<"VM",\s*(\d+),\s*"([^"]*)",\s*"((?:[^"\\]|\\.)*)">>', rt.out)]
@@ -97,8 +110,8 @@ def run(tier, seed, stmts, wd, name="vm"):
         if not last:
             raise vlib.ToolError("Trace_Verifier: rejected event %d without its evaluation line" % sid)
         rejected.append(last[-1])
-    log("[trace] Trace_Verifier: %d proofs taken apart (%d skipped by the harness), %d evaluated, %d/%d shards accepted, stages %s" % (
-        len(scs), len(skipped), len(lines), accepted, len(jobs), _hist(lines)))
+    log("[trace] Trace_Verifier / Trace_VerifierX: %d proofs taken apart (%d over the quadratic / cubic extension; %d skipped by the harness), %d evaluated, %d/%d shards accepted, stages %s" % (
+        len(scs), sum(1 for sc in scs if sc["ext"] > 1), len(skipped), len(lines), accepted, len(jobs), _hist(lines)))
     return {"scs": scs, "byid": {sc["id"]: sc for sc in scs}, "lines": lines, "rejected": rejected, "states": states, "transitions": trans,
             "shards": len(jobs), "accepted": accepted, "skipped": skipped}
 
@@ -114,8 +127,8 @@ def _hist(lines):
 def describe(sc):
     sh = sc.get("shape", {})
     cheat = "comp_cheat" if sc.get("comp_cheat") else "lde_cheat %s" % sc["lde_cheat"] if sc.get("lde_cheat") else "corrupt %s" % sc["corrupt"] if sc.get("corrupt") else "honest"
-    return "n=%s width=%s degrees=%s periodic=%s exemptions=%s assertions=%s aux=%s lagrange=%s options=%s prover=%s" % (
-        sh.get("n"), sh.get("width"), sh.get("degs"), sh.get("periodic"), sh.get("exempt"), [a["kind"] for a in sh.get("asserts", [])],
+    return "extension degree %s n=%s width=%s degrees=%s periodic=%s exemptions=%s assertions=%s aux=%s lagrange=%s options=%s prover=%s" % (
+        sc.get("ext"), sh.get("n"), sh.get("width"), sh.get("degs"), sh.get("periodic"), sh.get("exempt"), [a["kind"] for a in sh.get("asserts", [])],
         sh.get("aux_degs"), sh.get("lagrange"), sc.get("opts"), cheat)
 
 
